@@ -199,6 +199,14 @@ def case(rec, pvl, reader, key, tier, holder):
             break
     toks = doc.tokens
     pool = replacement_pool()
+    if reader == "default":
+        # lone surrogates are characters like any other to the permissive
+        # grammar (they are what errors="surrogateescape" makes of binary
+        # data): as a value, as a name, glued to other text
+        T = gt.Tok
+        pool += [T(G.VAL, "\ud800", "unquoted:surrogate", value="\ud800"),
+                 T(G.VAL, "x\udc00y", "unquoted:surrogate", value="x\udc00y"),
+                 T(G.NAME, "\udfff", "param")]
     n = len(toks)
     plans = []
     for i in range(n):
@@ -255,7 +263,9 @@ def case(rec, pvl, reader, key, tier, holder):
                                       "damage": desc}, holder)
 
 
-CHAR_POOL = list("=(){},;<>'\"/*#-+ \n") + ["\x01", "\xe9", "END", "GROUP", " = "]
+CHAR_POOL = list("=(){},;<>'\"/*#-+ \n") + ["\x01", "\xe9", "END", "GROUP", " = ",
+                                               "\ud800", " \udc00 ", "\n\udfff", "\xa0",
+                                               "\x1c", "\u2028", "\ufeff", "\u0131"]
 
 
 def char_damage_case(rec, pvl, reader, key, tier, holder, base_text=None):
